@@ -49,6 +49,12 @@ type StopCase struct {
 	Pending   bool            `json:"pending,omitempty"` // writers keep writing into the (possibly stalled) path when the action is issued
 	Pattern   e2e.PatternSpec `json:"pattern"`
 	Salt      uint64          `json:"salt"`
+	// AcceptBacklog > 0: the server application stops calling Accept and
+	// clients open that many further connections (more than the 64 the mux
+	// queues for Accept); BacklogClosed: the clients close them again before
+	// the action
+	AcceptBacklog int  `json:"acceptBacklog,omitempty"`
+	BacklogClosed bool `json:"backlogClosed,omitempty"`
 }
 
 func genStop(t *rapid.T) StopCase {
@@ -117,6 +123,18 @@ func genStop(t *rapid.T) StopCase {
 		if rapid.IntRange(0, 2).Draw(t, "writeOnlyNoFault") != 0 {
 			c.Fault = 0
 		}
+	}
+	// a server application that stopped accepting while clients keep connecting
+	if rapid.IntRange(0, 7).Draw(t, "acceptBacklog") == 0 {
+		c.AcceptBacklog = rapid.IntRange(60, 90).Draw(t, "acceptBacklogN")
+		c.RawClient, c.NoWait = true, true // a connection is opened by its first Write, no response is awaited
+		c.Fault, c.Pending = 0, false
+		for i := range c.Sessions {
+			c.Sessions[i].Backlog = 0
+		}
+		// on TCP every session still open at Stop costs the known second of
+		// F-C15-6, so there the clients always close the extra ones first
+		c.BacklogClosed = !c.UDP || rapid.Bool().Draw(t, "backlogClosed")
 	}
 	return c
 }
@@ -344,6 +362,32 @@ func propStop(c StopCase) (o pbt.Outcome) {
 		}
 		time.Sleep(100 * time.Millisecond)
 		o.Label("receiveQueueBacklog")
+	}
+	if c.AcceptBacklog > 0 {
+		env.PauseAccept(true)
+		var extra []net.Conn
+		for k := 0; k < c.AcceptBacklog; k++ {
+			ctx, cancel := context.WithTimeout(context.Background(), 20*time.Second)
+			cc, err := env.Dial(ctx, 1000+k)
+			cancel()
+			if err != nil {
+				o.Inconclusive = "dialling a further connection failed: " + err.Error()
+				return
+			}
+			if _, err := cc.Write([]byte{1}); err != nil {
+				o.Inconclusive = "first write on a further connection failed: " + err.Error()
+				return
+			}
+			extra = append(extra, cc)
+		}
+		time.Sleep(300 * time.Millisecond)
+		if c.BacklogClosed {
+			for _, cc := range extra {
+				cc.Close()
+			}
+			time.Sleep(100 * time.Millisecond)
+		}
+		o.Label("acceptBacklog>64=%v", c.AcceptBacklog > 64)
 	}
 	time.Sleep(2 * time.Millisecond)
 	if c.IdleMs > 0 {
